@@ -648,10 +648,72 @@ def rule_info_visits_every_entry(prog, fixture=False):
     return r
 
 
+# ---------------------------------------------------------------- R-C15-7
+def rule_directory_default_survives(prog, fixture=False):
+    r = RuleResult("R-C15-7", "parse_filename: where the parsed name is handed back, its directory is the --dir default "
+                   "or the directory given in the name on every path - nothing in between (a whole-object "
+                   "re-initialisation when a drive prefix is seen, say) puts another value there", floor=0 if fixture else 1)
+    for fn in prog.functions.values():
+        if fn.name != "parse_filename" or fn.body is None:
+            continue
+        res = [v for v in fn.walk() if v.get("k") == "VarDecl" and "ParsedFileName" in (v.get("t") or v.get("ct") or "") and
+               "*" not in (v.get("t") or "")]
+        if len(res) != 1:
+            r.undecided.append("%s: cannot identify the result object of parse_filename" % fn.loc(fn.body))
+            continue
+        rd = res[0]["d"]
+
+        def from_default_or_name(e):
+            return any(x.get("k") == "MemberExpr" and x.get("n") == "current_directory" for x in walk(e)) or \
+                any(x.get("k") in ("ArraySubscriptExpr", "CXXOperatorCallExpr") for x in walk(e))
+
+        def transfer(x):
+            if x.get("k") == "DeclStmt":
+                for v in x.get("c", []):
+                    if v.get("k") == "VarDecl" and v.get("d") == rd:
+                        return bool(v.get("c")) and any(y.get("k") == "MemberExpr" and y.get("n") == "current_directory" for y in walk(v["c"][0]))
+            tgt = rhs = None
+            if x.get("k") == "BinaryOperator" and x.get("op") == "=":
+                tgt, rhs = strip_all(x["c"][0]), x["c"][1]
+            elif x.get("k") == "CXXOperatorCallExpr" and x.get("op") == "=" and len(x.get("c", [])) == 3:
+                tgt, rhs = strip_all(x["c"][1]), x["c"][2]
+            if tgt is None:
+                return None
+            if tgt.get("k") == "MemberExpr" and tgt.get("n") == "dir" and (strip_all(tgt["c"][0]) or {}).get("d") == rd:
+                return from_default_or_name(rhs)
+            if tgt.get("k") == "DeclRefExpr" and tgt.get("d") == rd:
+                return any(y.get("k") == "MemberExpr" and y.get("n") == "current_directory" for y in walk(rhs))
+            return None
+        at = flow.must_hold_at(fn, transfer)
+        k = 0
+        for n in fn.walk():
+            # the result leaves the function: swap(result, *p), *p = result, return result
+            leaves = False
+            if n.get("k") == "CallExpr" and notpl(n.get("q") or "").split("::")[-1] == "swap" and \
+                    any((strip_all(a) or {}).get("d") == rd for a in call_args(n)):
+                leaves = True
+            if n.get("k") in ("BinaryOperator", "CXXOperatorCallExpr") and n.get("op") == "=" and \
+                    (strip_all(n["c"][-1]) or {}).get("d") == rd:
+                leaves = True
+            if n.get("k") == "ReturnStmt" and n.get("c") and (strip_all(n["c"][0]) or {}).get("d") == rd:
+                leaves = True
+            if not leaves:
+                continue
+            k += 1
+            ok = at(n)
+            if ok is None:
+                continue
+            r.add("%s::%s::result-leaves#%d" % (fn.relfile(), fn.qn, k), fn.loc(n), bool(ok),
+                  "directory = default or parsed, on every path" if ok else
+                  "on some path the result's directory was last set by something other than the --dir default or the name "
+                  "itself (the object was re-initialised): `:0.NAME` under --dir B looks in `$`")
+    return r
+
+
 def run(ctx):
     prog = ctx.prog("dfs", "N")
     return [rule_translation(prog), rule_canonical_patterns(prog), rule_name_comparison(prog), rule_selector_assignment(prog), rule_lookup_keeps_hit(prog),
-            rule_info_visits_every_entry(prog)]
+            rule_info_visits_every_entry(prog), rule_directory_default_survives(prog)]
 
 
 SELFTESTS = [
